@@ -134,3 +134,74 @@ func ZZ_C13_DiffBadDocuments() {
 	}
 	vf_Observe("rows", len(got))
 }
+
+// C13 through the directory API of diff: a syntactically broken file in the first and/or the second directory (at any
+// position among the documents) is reported as one severe error each, attributed to its own directory, and the diff
+// equals the diff of the clean directories; with stop-on-first-error the call fails. The scanner is the environment stub
+// of DESIGN 3.2 (natively: real files read by the real scanner).
+func ZZ_C13_DiffDirPaths() {
+	good1 := zzC13Good("r1", true)
+	good2 := zzC13Good("r2", vf_Choose("r2.policy", 2) == 1)
+	base, err := NewDiffAnalyzer().ConnDiffFromResourceInfos(zzInfosOf(good1), zzInfosOf(good2))
+	vf_Assert(err == nil && base != nil, "clean-inputs-diffed")
+	if err != nil || base == nil {
+		return
+	}
+	infos1, infos2 := zzInfosOf(good1), zzInfosOf(good2)
+	var bad1, bad2 []int
+	if vf_Choose("broken1", 2) == 1 {
+		bad1 = []int{vf_Choose("broken1.pos", len(infos1)+1)}
+	}
+	if vf_Choose("broken2", 2) == 1 {
+		bad2 = []int{vf_Choose("broken2.pos", len(infos2)+1)}
+	}
+	dir1 := vf_RegisterDir("c13d1", infos1, bad1, nil)
+	dir2 := vf_RegisterDir("c13d2", infos2, bad2, nil)
+	stop := vf_Choose("stop", 2) == 1
+	opts := []DiffAnalyzerOption{}
+	if stop {
+		opts = append(opts, WithStopOnError())
+	}
+	da := NewDiffAnalyzer(opts...)
+	d, err := da.ConnDiffFromDirPaths(dir1, dir2)
+	sevIn1, sevIn2, other := 0, 0, 0
+	for _, de := range da.Errors() {
+		vf_Assert(!de.IsFatal() || stop, "no-fatal-error")
+		if de.IsSevere() {
+			switch de.Location() {
+			case "in file: " + dir1:
+				sevIn1++
+			case "in file: " + dir2:
+				sevIn2++
+			default:
+				other++
+			}
+		}
+	}
+	nbad := len(bad1) + len(bad2)
+	if stop && nbad > 0 {
+		vf_Assert(err != nil, "stop-on-error-fails")
+		vf_Assert(len(da.Errors()) >= 1, "stop-on-error-records-the-error")
+		return
+	}
+	vf_Assert(sevIn1 == len(bad1), "broken-file-of-dir1-reported-for-dir1")
+	vf_Assert(sevIn2 == len(bad2), "broken-file-of-dir2-reported-for-dir2")
+	vf_Assert(other == 0, "no-other-severe-error")
+	vf_Assert(err == nil && d != nil, "analysis-continues")
+	if err != nil || d == nil {
+		return
+	}
+	want, got := zzDiffRows(base), zzDiffRows(d)
+	vf_Assert(len(want) == len(got), "same-diff-entries")
+	for _, w := range want {
+		found := false
+		for _, g := range got {
+			if g.key == w.key {
+				found = true
+				vf_Assert(g.typ == w.typ && g.c1 == w.c1 && g.c2 == w.c2, "same-diff-entry")
+			}
+		}
+		vf_Assert(found, "same-diff-entries")
+	}
+	vf_Observe("rows", len(got))
+}
